@@ -28,7 +28,7 @@ GRAMMAR = """
 Model: 'model' name=ID things+=Thing;
 Thing: Named | Bag;
 Named: 'named' name=STRING ('label' label=STRING)? ('tags' tags+=STRING[','])? ('to' to=[Named:STRING])?;
-Bag: 'bag' name=ID items+=Item[','];
+Bag: 'bag' name=ID ('owner' owner=[Named:STRING])? items+=Item[','];
 Item: Named | STRING | INT;
 """
 MM_GRAMMARS = [
@@ -296,6 +296,12 @@ def judge_model(slot, value):
 def explore(item):
     slot, K = item
     ctx = Ctx(10000, max_paths=200000, free_selectors=True)
+    # 'long:<n>': the enumerated characters follow a prefix of n letters, so that the
+    # 20-character truncation of long values (dot_repr) cuts inside / right after them
+    prefix = ''
+    if slot.startswith('long:'):
+        prefix = 'a' * int(slot.split(':')[1])
+        slot = 'attr' if slot.count(':') == 1 else slot.split(':')[2]
 
     def path(c):
         chars = []
@@ -308,13 +314,13 @@ def explore(item):
                     ch = ALPHA[j]
                     break
             chars.append(ch)
-        value = ''.join(chars)
+        value = prefix + ''.join(chars)
         if value.endswith('\\') and slot != 'filename':
             return (None, value)         # not expressible as a STRING of the model language
         return (judge_model(slot, value), value)
     outs = ctx.explore(path)
     bad = [(r, v) for r, v in outs if r]
-    return {'slot': slot, 'paths': ctx.paths, 'checked': sum(1 for r, v in outs if r is not None),
+    return {'slot': (item[0] if prefix else slot), 'paths': ctx.paths, 'checked': sum(1 for r, v in outs if r is not None),
             'bad': [{'slot': slot, 'value': v, 'detail': r} for r, v in bad[:4]], 'nbad': len(bad)}
 
 
@@ -376,10 +382,13 @@ def main():
     chk = Check(PROP, 'exploration')
     quick = chk.tier == 'quick'
     K = 2 if quick else 3
-    results = pmap(explore, [(s, K) for s in SLOTS])
+    # long values: prefixes of 17..20 letters put the enumerated characters on the truncation boundary
+    long_slots = ['long:%d' % n for n in (17, 18, 19, 20)] + ['long:19:list', 'long:18:mixed-first']
+    results = pmap(explore, [(s, K) for s in SLOTS] + [(s, 2 if quick else 3) for s in long_slots])
     chk.cov['functions_encoded'] = src_hash(E.dot_escape, E.dot_repr, E.model_export_to_file, E.metamodel_export_tofile,
                                             E.DotRenderer.render_class, E.PlantUmlRenderer.render_class)
-    chk.cov['bounds'] = {'string_chars': K, 'alphabet': ALPHA, 'slots': SLOTS, 'metamodels': len(MM_GRAMMARS)}
+    chk.cov['bounds'] = {'string_chars': K, 'alphabet': ALPHA, 'slots': SLOTS, 'metamodels': len(MM_GRAMMARS),
+                         'long_values': 'prefix of 17-20 letters + the enumerated characters (truncation boundary of dot_repr)'}
     chk.cov['outside_claim'] = ['longer strings', 'characters outside the listed alphabet',
                                 'rendering by Graphviz itself (an independent reader of the DOT syntax is used)']
     chk.assumptions = ['finite string space enumerated exhaustively (selectors unconstrained: z3 decides nothing)',
